@@ -75,12 +75,21 @@ def check(run):
         users = {}
         for r in G['rules']:
             code = r.get('action', '') + ''.join(r.get('mid', {}).values())
-            for var in ('types', 'rootTransId'):
+            pass
+        # the file-static variables of the grammar file, by role rather than by name: the counter ArrayDecl resets (`types = 0`-style reset in a mid-rule
+        # action) and the buffer a full transition copies its source into
+        resets = {m.group(1) for r in G['rules'] for code in (r.get('mid') or {}).values() for m in re.finditer(r'\b(\w+)\s*=\s*0\s*;', code) if r['lhs'] == 'ArrayDecl'}
+        copies = {m.group(1) for r in G['rules'] if r['lhs'] in ('Transition', 'OldTransition') for m in [re.search(r'\bstrn?cpy\s*\(\s*(\w+)\s*,\s*\$1\b', r.get('action') or '')] if m}
+        TYPES = resets.pop() if len(resets) == 1 else 'types'
+        ROOT = copies.pop() if len(copies) == 1 else 'rootTransId'
+        for r in G['rules']:
+            code = r.get('action', '') + ''.join(r.get('mid', {}).values())
+            for var in (TYPES, ROOT):
                 if re.search(r'\b%s\b' % var, code):
                     users.setdefault(var, []).append(r)
         # `types` is used only by ArrayDecl / ArrayDecl2 and ArrayDecl2 is entered only behind the action "types = 0"
         bad = []
-        for r in users.get('types', []):
+        for r in users.get(TYPES, []):
             if r['lhs'] not in ('ArrayDecl', 'ArrayDecl2') and not re.match(r'^[$@]+\d+$', r['lhs']):
                 bad.append('types used in %s' % r['lhs'])
         for r in G['rules']:
@@ -89,13 +98,13 @@ def check(run):
             if r['lhs'] == 'ArrayDecl' and 'ArrayDecl2' in r['rhs']:
                 k = r['rhs'].index('ArrayDecl2')
                 pre = [x for x in r['rhs'][:k] if re.match(r'^[$@]+\d+$', x)]
-                if not pre or not re.search(r'types\s*=\s*0', r['mid'].get(pre[-1], '')):
+                if not pre or not re.search(r'\b%s\s*=\s*0' % TYPES, r['mid'].get(pre[-1], '')):
                     bad.append('ArrayDecl enters ArrayDecl2 without resetting types')
         # rootTransId: it is read only by the continuation form "-> target { ... }" (XOpt), which occurs only as
         # "XList ',' XOpt", and every XList starts with a full transition X whose action copies the source name
-        writers = {r['lhs'] for r in users.get('rootTransId', []) if re.search(r'str n?cpy\s*\(\s*rootTransId'.replace(' ', ''), r.get('action', '') + ''.join(r.get('mid', {}).values()))}
-        readers = {r['lhs'] for r in users.get('rootTransId', []) if re.search(r'\(\s*rootTransId', re.sub(r'str n?cpy\s*\(\s*rootTransId'.replace(' ', ''), '', r.get('action', '') + ''.join(r.get('mid', {}).values())))}
-        readers = {x for x in readers if not re.match(r'^[$@]+\d+$', x)} | {rr['lhs'] for rr in G['rules'] for m in rr.get('mid', {}) if re.search(r'\(\s*rootTransId', rr['mid'][m]) and 'strcpy' not in rr['mid'][m]}
+        writers = {r['lhs'] for r in users.get(ROOT, []) if re.search((r'str n?cpy\s*\(\s*' + ROOT).replace(' ', ''), r.get('action', '') + ''.join(r.get('mid', {}).values()))}
+        readers = {r['lhs'] for r in users.get(ROOT, []) if re.search(r'\(\s*' + ROOT, re.sub((r'str n?cpy\s*\(\s*' + ROOT).replace(' ', ''), '', r.get('action', '') + ''.join(r.get('mid', {}).values())))}
+        readers = {x for x in readers if not re.match(r'^[$@]+\d+$', x)} | {rr['lhs'] for rr in G['rules'] for m in rr.get('mid', {}) if re.search(r'\(\s*' + ROOT, rr['mid'][m]) and 'strcpy' not in rr['mid'][m]}
         for rd in readers:
             if rd in writers and rd not in ('TransitionOpt', 'OldTransitionOpt'):
                 continue
